@@ -138,16 +138,43 @@ def _init(repo: str) -> None:
     warnings.simplefilter("ignore")
 
 
-def _quiet_print(task: Any, fn: str, arg: Any) -> Optional[str]:
-    """the printing half of the tool must cope with every report"""
+def _quiet_print(task: Any, fn: str, arg: Any, text: Optional[List[str]] = None) -> Optional[str]:
+    """the printing half of the tool must cope with every report; `text` receives what was printed"""
     import contextlib
     import io
+    buf = io.StringIO()
     try:
-        with contextlib.redirect_stdout(io.StringIO()):
+        with contextlib.redirect_stdout(buf):
             getattr(task, fn)(arg)
+        if text is not None:
+            text.append(buf.getvalue())
         return None
     except Exception as e:  # noqa: BLE001
         return f"{type(e).__name__}: {str(e)[:100]}"
+
+
+_SECTIONS = [("new", "New services"), ("deleted", "Deleted services"), ("renamed", "Renamed services"),
+             ("changed", "Services with parameter changes")]
+
+
+def printed_sections(text: str) -> Dict[str, str]:
+    """what the printed layer report shows below each of its headings (up to the next heading)"""
+    marks = sorted((text.find(h), k) for k, h in _SECTIONS if text.find(h) >= 0)
+    out: Dict[str, str] = {}
+    for j, (pos, k) in enumerate(marks):
+        end = marks[j + 1][0] if j + 1 < len(marks) else len(text)
+        if k == "changed":
+            end_ = text.find("Detailed changes of diagnostic service", pos)
+            end = end_ if end_ >= 0 else end
+        out[k] = text[pos:end]
+    return out
+
+
+def report_omissions(text: str, got: Dict[str, Any]) -> List[List[str]]:
+    """[section, service] for every service of the returned report that the printed report does not name in its section"""
+    sec = printed_sections(text)
+    names = {"new": got["new"], "deleted": got["deleted"], "renamed": [r[0] for r in got["renamed"]], "changed": got["changed_list"]}
+    return [[k, n] for k, ns in names.items() for n in ns if not re.search(r"\b" + re.escape(n) + r"\b", sec.get(k, ""))]
 
 
 def process(args: Tuple[List[Dict[str, Any]], int, int]) -> Dict[str, Any]:
@@ -157,7 +184,7 @@ def process(args: Tuple[List[Dict[str, Any]], int, int]) -> Dict[str, Any]:
     fails: List[Tuple[str, Dict[str, Any]]] = []
     div: List[Tuple[str, Dict[str, Any]]] = []
     st = {"cases": 0, "comparisons": 0, "self_comparisons": 0, "single_edits": 0, "renames": 0, "attr_edits": 0, "dop_edits": 0,
-          "db_comparisons": 0, "metrics_rows": 0, "ambiguous": 0, "changed_expected": 0, "prints": 0}
+          "db_comparisons": 0, "metrics_rows": 0, "ambiguous": 0, "changed_expected": 0, "prints": 0, "printed_names": 0}
     shared = Comparison()
     shared.param_detailed = True
     shared.obj_detailed = True
@@ -214,11 +241,19 @@ def process(args: Tuple[List[Dict[str, Any]], int, int]) -> Dict[str, Any]:
             except Exception as ex:  # noqa: BLE001
                 fail("compare_raises", rec, {"exc": f"{type(ex).__name__}: {str(ex)[:120]}"})
                 return None
-            err = _quiet_print(task, "print_dl_changes", sd)
+            text: List[str] = []
+            err = _quiet_print(task, "print_dl_changes", sd, text)
             st["prints"] += 1
             if err:
                 fail("print_raises", rec, {"exc": err})
-            return project(sd, side_a)
+            got_ = project(sd, side_a)
+            if text:
+                # the report the user reads names every service of the returned one, below the heading of its kind
+                missing = report_omissions(text[0], got_)
+                st["printed_names"] += sum(len(got_[k_]) for k_ in ("new", "deleted", "renamed", "changed_list"))
+                if missing:
+                    fail("printed_report", rec, {"not_printed": missing, "got": got_})
+            return got_
 
         # ---- a version compared with itself (the same objects, and a second load of the same documents)
         for (a, b, side) in ((dl_n, dl_n, rec["new"]), (dl_o, og.load(build_docs(rec["old"], {}, ex_o, ncp_o)).diag_layers["BV"], rec["old"])):
@@ -423,7 +458,7 @@ def check(tier: str, replay: Optional[str] = None) -> int:
         v.diverge(what, d)
     print(f"[C18] replay: {stats} divergences={ndiv}", flush=True)
     if not replay:
-        for k in ("renames", "attr_edits", "dop_edits", "changed_expected", "metrics_rows", "inherited_counted", "comparams_counted"):
+        for k in ("renames", "attr_edits", "dop_edits", "changed_expected", "metrics_rows", "inherited_counted", "comparams_counted", "printed_names"):
             if not stats.get(k):
                 raise tlc.MachineryError(f"vacuity: {k} = 0 in {stats}")
     cov = {"states": res.distinct + hstates, "transitions": res.generated, "traces_validated_against_impl": stats.get("cases", 0),
